@@ -329,7 +329,7 @@ pub struct WorkerArgs {
 fn flush(agg: &mut Out, seen: &mut HashSet<u64>, stdout: &mut std::io::StdoutLock) {
     let mut new_shapes: Vec<String> = Vec::new();
     for h in agg.shapes.drain(..) {
-        if seen.len() < 4_000_000 && seen.insert(h) {
+        if seen.len() < 1_000_000 && seen.insert(h) {
             new_shapes.push(format!("{:x}", h));
         }
     }
